@@ -6,11 +6,11 @@ namespace MJ.Lexer
 
 structure Good (d : Delims) : Prop where
   starts : ∀ mp ∈ startPats d, startOk mp.2 = true
-  lastNl : ∀ mp ∈ startPats d, endNotNl mp.2 = true
+  lastNl : ∀ mp ∈ startPats d, mp.1.isLine = true → endNotNl mp.2 = true
   nodup : ((startPats d).map (·.2)).Nodup
   ve : headOk d.ve = true
   be : headOk d.be = true
-  ce : headOk d.ce = true
+  ce : d.ce ≠ []
   lve : lastOk d.ve = true
   lbe : lastOk d.be = true
   lce : lastOk d.ce = true
@@ -29,7 +29,10 @@ theorem nodup_of_nodupB (l : List (List Char)) (h : nodupB l = true) : l.Nodup :
 theorem good_of_goodDelims {d : Delims} (h : goodDelims d = true) : Good d := by
   simp only [goodDelims, Bool.and_eq_true, List.all_eq_true] at h
   obtain ⟨⟨⟨⟨⟨⟨⟨h1, h2⟩, h3⟩, h4⟩, h5⟩, h6⟩, h7⟩, h8⟩ := h
-  exact ⟨fun mp hmp => (h1 mp hmp).1, fun mp hmp => (h1 mp hmp).2, nodup_of_nodupB _ h2, h3, h4, h5, h6, h7, h8⟩
+  refine ⟨fun mp hmp => (h1 mp hmp).1, fun mp hmp hl => ?_, nodup_of_nodupB _ h2, h3, h4, ?_, h6, h7, h8⟩
+  · have := (h1 mp hmp).2
+    simpa [hl] using this
+  intro h0; rw [h0] at h5; simp at h5
 
 theorem good_default : Good defaultDelims := good_of_goodDelims (by decide)
 
@@ -66,14 +69,29 @@ theorem ws_plus : isAsciiWs '+' = false := by decide
 
 theorem dropWhile_asciiWs_mark_end {e : List Char} (he : headOk e = true) (m : Mark) (x : List Char) :
     (m.src ++ (e ++ x)).dropWhile isAsciiWs = m.src ++ (e ++ x) := by
-  obtain ⟨h, t, rfl, h1, _, _, _⟩ := headOk_cons he
+  obtain ⟨h, t, rfl, h1⟩ := headOk_cons he
   cases m <;> simp only [Mark.src, List.nil_append, List.cons_append, List.dropWhile_cons, h1, ws_minus, ws_plus] <;> rfl
 
-/-- the marker / end delimiter part of `skip_basic_tag` -/
-theorem takeMarker_mark_end {e : List Char} (he : headOk e = true) (m : Mark) (x : List Char) :
-    takeMarker (m.src ++ (e ++ x)) = (m.ws, e ++ x) := by
-  obtain ⟨h, t, rfl, _, _, h3, h4⟩ := headOk_cons he
-  cases m <;> simp [takeMarker, Mark.src, Mark.ws, h3, h4]
+/-- the marker / end delimiter part of `skip_basic_tag`: a marker is taken only in front of the end
+    delimiter, and an unmarked end delimiter is not read as a marked one (`closeOk`) -/
+theorem takeMarker_mark_end (e : List Char) (m : Mark) (x : List Char) (hc : closeOk e m x = true) :
+    takeMarker e (m.src ++ (e ++ x)) = (m.ws, e ++ x) := by
+  cases m with
+  | minus => simp [takeMarker, Mark.src, Mark.ws, startsWith_append_self]
+  | plus => simp [takeMarker, Mark.src, Mark.ws, startsWith_append_self]
+  | none =>
+    simp only [closeOk, bne_self_eq_false, Bool.false_or] at hc
+    simp only [Mark.src, Mark.ws, List.nil_append]
+    cases hex : e ++ x with
+    | nil => rfl
+    | cons c rest =>
+      rw [hex] at hc
+      simp only [Bool.not_eq_true', isMarkChar, Bool.and_eq_false_iff, Bool.or_eq_false_iff,
+        decide_eq_false_iff_not] at hc
+      unfold takeMarker
+      rcases hc with ⟨h1, h2⟩ | h
+      · simp [h1, h2]
+      · simp [h]
 
 theorem dropWhile_asciiWs_pad (tight : Bool) (y : List Char) :
     (pad tight ++ y).dropWhile isAsciiWs = y.dropWhile isAsciiWs := by
@@ -82,26 +100,28 @@ theorem dropWhile_asciiWs_pad (tight : Bool) (y : List Char) :
 /-- `skip_basic_tag` once the optional marker in front has been dealt with: blanks, the name,
     blanks, marker, end delimiter -/
 theorem skipBasicTag_core {e : List Char} (he : headOk e = true) (s name : List Char) (b tight : Bool)
-    (m : Mark) (x : List Char)
+    (m : Mark) (x : List Char) (hc : closeOk e m x = true)
     (hp2 : (stripMarkerIf b s).dropWhile isAsciiWs = name ++ (pad tight ++ (m.src ++ (e ++ x)))) :
     skipBasicTag s name e b = some (s.length - x.length, m.ws) := by
   unfold skipBasicTag
   simp only [hp2, startsWith_append_self, if_true, List.drop_left]
-  simp only [dropWhile_asciiWs_pad, dropWhile_asciiWs_mark_end he, takeMarker_mark_end he,
+  simp only [dropWhile_asciiWs_pad, dropWhile_asciiWs_mark_end he, takeMarker_mark_end e m x hc,
     startsWith_append_self]
   simp
 
-theorem skipBasicTag_raw {e : List Char} (he : headOk e = true) (tight : Bool) (m : Mark) (x : List Char) :
+theorem skipBasicTag_raw {e : List Char} (he : headOk e = true) (tight : Bool) (m : Mark) (x : List Char)
+    (hc : closeOk e m x = true) :
     skipBasicTag (rawBody tight ++ (m.src ++ (e ++ x))) rawName e false =
       some ((rawBody tight).length + m.src.length + e.length, m.ws) := by
-  rw [skipBasicTag_core he _ rawName false tight m x
+  rw [skipBasicTag_core he _ rawName false tight m x hc
     (by cases tight <;> simp [stripMarkerIf, rawBody, pad, rawName, List.dropWhile_cons, isAsciiWs])]
   simp; omega
 
-theorem skipBasicTag_endraw {e : List Char} (he : headOk e = true) (tight : Bool) (l2 m : Mark) (x : List Char) :
+theorem skipBasicTag_endraw {e : List Char} (he : headOk e = true) (tight : Bool) (l2 m : Mark) (x : List Char)
+    (hc : closeOk e m x = true) :
     skipBasicTag (l2.src ++ (endrawBody tight ++ (m.src ++ (e ++ x)))) endrawName e true =
       some (l2.src.length + (endrawBody tight).length + m.src.length + e.length, m.ws) := by
-  rw [skipBasicTag_core he _ endrawName true tight m x
+  rw [skipBasicTag_core he _ endrawName true tight m x hc
     (by cases l2 <;> cases tight <;>
       simp [stripMarkerIf, Mark.src, endrawBody, pad, endrawName, List.dropWhile_cons, isAsciiWs])]
   simp; omega
@@ -116,6 +136,7 @@ theorem map_succ_some {α : Type} (a : Nat) (b : α) :
 
 /-- the closing tag of a raw block is found right after content that is free of block starts -/
 theorem findEndraw_content {d : Delims} (g : Good d) (c : List Char) (tight : Bool) (l2 m : Mark) (x : List Char)
+    (hc : closeOk d.be m x = true)
     (hfree : noBsIn d c (d.bs ++ (l2.src ++ (endrawBody tight ++ (m.src ++ (d.be ++ x))))) = true) :
     findEndraw d 0 (c ++ (d.bs ++ (l2.src ++ (endrawBody tight ++ (m.src ++ (d.be ++ x)))))) =
       some (c.length, d.bs.length + (l2.src.length + (endrawBody tight).length + m.src.length + d.be.length),
@@ -133,7 +154,7 @@ theorem findEndraw_content {d : Delims} (g : Good d) (c : List Char) (tight : Bo
       rw [← hF, List.drop_left]
     rw [hF2] at hsw hdrop ⊢
     unfold findEndraw
-    simp only [hsw, if_true, hdrop, skipBasicTag_endraw g.be]
+    simp only [hsw, if_true, hdrop, skipBasicTag_endraw g.be tight l2 m x hc]
     cases l2 <;> cases tight <;> simp [Mark.src, Mark.ws, endrawBody, pad, endrawName, wsOfChar]
   | cons a c ih =>
     simp only [noBsIn, Bool.and_eq_true, Bool.not_eq_true'] at hfree
